@@ -7,6 +7,7 @@
 #include "../engine/shim.hpp"
 #include <algorithm>
 #include <cstdarg>
+#include <sys/mman.h>
 
 extern "C" {
 #include "a/str.h"
@@ -798,6 +799,47 @@ static void run_cmp(int maxlen, const std::string &job)
             }
         }
     }
+    // lengths that differ by 2^31 and more: "length as tie-break" is a comparison of two size values, whatever their distance.  The long
+    // operand is an untouched (all-zero, never resident) anonymous mapping that starts with the short operand's bytes; only the common
+    // prefix is ever read.  If the address space cannot be reserved this part is skipped and reported as such.
+#if !defined(__SANITIZE_ADDRESS__)
+    {
+        const size_t big = ((size_t)1 << 33) + 4096;
+        void *map = mmap(nullptr, big, PROT_READ | PROT_WRITE, MAP_PRIVATE | MAP_ANONYMOUS | MAP_NORESERVE, -1, 0);
+        if (map == MAP_FAILED) { vx::info_str("cmp-huge-lengths", "the address space for an 8 GiB operand could not be reserved: part skipped"); }
+        else
+        {
+            char *L = (char *)map;
+            memcpy(L, "abcdefgh", 8);
+            const size_t shortn[] = {0, 8};
+            const size_t longn[] = {((size_t)1 << 31) - 1 + 8, ((size_t)1 << 31) + 8, ((size_t)1 << 31) + 9, ((size_t)1 << 32) + 7, ((size_t)1 << 32) + 8, ((size_t)1 << 32) + 9, ((size_t)3 << 31) + 8, (size_t)1 << 33};
+            for (size_t sn : shortn)
+            {
+                for (size_t ln : longn)
+                {
+                    a_str a, b; // borrowed storage: the objects are never destroyed
+                    a.ptr_ = const_cast<char *>("abcdefgh"); a.num_ = sn; a.mem_ = 8;
+                    b.ptr_ = L; b.num_ = ln; b.mem_ = big;
+                    int r[6] = {a_str_cmp_("abcdefgh", sn, L, ln), a_str_cmp_(L, ln, "abcdefgh", sn), a_str_cmp(&a, &b), a_str_cmp(&b, &a), a_str_cmpn(&a, L, ln), a_str_cmpn(&b, "abcdefgh", sn)};
+                    static const char *fn[6] = {"a_str_cmp_(short, long)", "a_str_cmp_(long, short)", "a_str_cmp(short, long)", "a_str_cmp(long, short)", "a_str_cmpn(short, long)", "a_str_cmpn(long, short)"};
+                    evals += 6; nontrivial += 6;
+                    for (int k = 0; k < 6; ++k)
+                    {
+                        int want = k % 2 ? 1 : -1;
+                        if ((r[k] > 0) - (r[k] < 0) != want)
+                        {
+                            vx::viol(std::string("str|cmp|huge-length-difference|") + (k < 2 ? "cmp_" : k < 4 ? "cmp" : "cmpn"), std::string(fn[k]) + " with lengths " + std::to_string(sn) + " and " + std::to_string(ln) + " (the short operand is a prefix of the long one) returned " + std::to_string(r[k]) + ": the longer string must order after its prefix",
+                                     "{\"job\":" + vx::jstr(job) + ",\"input\":[" + std::to_string(sn) + "," + std::to_string(ln) + "]}");
+                            break;
+                        }
+                    }
+                }
+            }
+            munmap(map, big);
+            vx::stat("cmp_huge_length_pairs", (long long)(sizeof shortn / sizeof *shortn * sizeof longn / sizeof *longn));
+        }
+    }
+#endif
     vx::stat("states", 1);
     vx::stat("transitions", evals);
     vx::stat("cmp_pairs", evals);
